@@ -21,6 +21,7 @@ import VerifModel.Driver.Multi
 import VerifModel.Driver.ListOutput
 import VerifModel.Driver.ArgsData
 import VerifModel.Driver.GenMore
+import VerifModel.Driver.DataT
 /-
   verifdrv — line-protocol driver: one operation per input line, one canonical
   reply line.  `ERR bad-op` for anything a handler does not recognise.
@@ -28,7 +29,7 @@ import VerifModel.Driver.GenMore
 open VerifModel
 
 def handlers : List (List String → Option String) :=
-  [Driver.Cmp.handle, Driver.Cont.handle, Driver.Det.handle, Driver.Data.handle, Driver.Clean.handle, Driver.Agg.handle, Driver.Scripts.handle, Driver.Axis.handle, Driver.Output.handle, Driver.Text.handle, Driver.Args.handle, Driver.Diagram.handle, Driver.Nc.handle, Driver.Fig.handle, Driver.Prob.handle, Driver.Dispatch.handle, Driver.DiagramViews.handle, Driver.Multi.handle, Driver.ListOutput.handle, Driver.ArgsData.handle, Driver.GenMore.handle, Driver.ClimExtra.handle, Driver.DiagramFss.handle]
+  [Driver.Cmp.handle, Driver.Cont.handle, Driver.Det.handle, Driver.Data.handle, Driver.Clean.handle, Driver.Agg.handle, Driver.Scripts.handle, Driver.Axis.handle, Driver.Output.handle, Driver.Text.handle, Driver.Args.handle, Driver.Diagram.handle, Driver.Nc.handle, Driver.Fig.handle, Driver.Prob.handle, Driver.Dispatch.handle, Driver.DiagramViews.handle, Driver.Multi.handle, Driver.ListOutput.handle, Driver.ArgsData.handle, Driver.GenMore.handle, Driver.ClimExtra.handle, Driver.DiagramFss.handle, Driver.DataT.handle]
 
 def step (line : String) : String :=
   let args := (line.trimAscii.toString.splitOn " ").filter (· ≠ "")
